@@ -197,6 +197,7 @@ def run_case(cid, case_id, tier="quick", known_regions=None, seed=0):
     c = REGISTRY[cid]
     case = c.cases[case_id] if isinstance(c.cases, dict) else case_id
     timeout = 20000 if tier == "quick" else 90000
+    budget_s = getattr(c, "budget_s", 150 if tier == "quick" else 1200)
     both = tier == "thorough"
     stats = Stats()
     stats.queries = 0
@@ -224,6 +225,8 @@ def run_case(cid, case_id, tier="quick", known_regions=None, seed=0):
             npaths += 1
             if npaths > c.max_paths:
                 raise Unsupported("path budget exceeded (%d)" % c.max_paths)
+            if time.time() - t_start > budget_s:
+                raise Unsupported("time budget exceeded (%ds, %d paths)" % (budget_s, npaths))
             k = s.exit_kind()
             res["exits"][k] = res["exits"].get(k, 0) + 1
             if res["sample_pre"] is None:
